@@ -82,6 +82,13 @@ func (fr *Frame) doCall(c *ssa.CallCommon, fnv Val, args []Val, rt types.Type, p
 			bindings = fnv.Clo.Bindings
 		}
 		if callee == nil {
+			if fr.vc.typeName(c.Value.Type()) == "context.CancelFunc" {
+				// cancelling a context has no effect on modelled program state (the context's
+				// ghost done flag is updated by an explicit site clause where a contract needs it)
+				fr.vc.note("call of a context.CancelFunc: no effect on modelled state")
+				res = fr.vc.zeroVal(rt)
+				break
+			}
 			res = fr.unknownCall("dynamic call of func value", args, rt, true)
 			break
 		}
